@@ -565,15 +565,23 @@ impl Model {
             }
             true
         }
+        let mut replaced_by_link = false;
         for v in &visits {
             let src = self.t.nodes.get(&v.path).unwrap();
             let rel = &v.path[s.len()..];
             let dst = if rel.is_empty() { bse.clone() } else { format!("{}{}", if bse == "/" { "" } else { &bse }, rel) };
             match src {
                 Node::Link { target, .. } => {
-                    // recreating a link needs an existing real parent; replacing an entry is unspecified
-                    if m.kind(&dst).is_some() || m.kind(&parent(&dst)) != Some(Kind::Dir) {
+                    // recreating a link needs an existing real parent; replacing a directory is unspecified
+                    if m.kind(&dst) == Some(Kind::Dir) || m.kind(&parent(&dst)) != Some(Kind::Dir) {
                         return vec![unspec()];
+                    }
+                    // a file or link already at the link's place: the copy may be refused (anywhere in its
+                    // traversal), but an Ok must mean the source link was duplicated there
+                    if m.kind(&dst).is_some() {
+                        replaced_by_link = true;
+                        m.t.nodes.remove(&dst);
+                        m.meta.remove(&dst);
                     }
                     let to_dir = m.dirish(target);
                     let tk = m.effective_kind(target);
@@ -634,6 +642,9 @@ impl Model {
         }
         if differs {
             alts.push(then(Pat::Is(Out::Unit), m2));
+        }
+        if replaced_by_link {
+            alts.push(failing);
         }
         alts
     }
